@@ -1156,8 +1156,14 @@ func cmdCheck(args []string) int {
 	wg.Wait()
 	// an obligation that no solver decided while the others were racing beside it gets one more attempt on an otherwise
 	// idle machine with a long limit before it is reported as undischarged (a loaded machine must not become an alarm)
+	retryStart := time.Now()
 	for i, r := range results {
 		undecided := r.Raw == "unknown" || r.Raw == "timeout" || strings.Contains(r.Solver, "candidate model")
+		// the retries of one run share a budget: a tree with many undecided obligations (a broken one, typically) is
+		// reported after at most a few minutes
+		if time.Since(retryStart) > 150*time.Second {
+			break
+		}
 		if r.Status == "failed" && undecided && obls[i].Kind != "bind" {
 			lt := timeout * 3
 			if lt < 30 {
